@@ -1,19 +1,20 @@
 SPECIFICATION Spec
 CONSTANTS
-  MaxAdds = 3
+  MaxAdds = 2
   Ticks = {1000, 1004, 2000}
   MaxLen = 2
   MaxLenI = 1
-  MaxSets = 3
-  Tols = {10}
-  Kinds = {"float", "text"}
+  MaxSets = 2
+  Tols = {1, 10}
+  Kinds = {"float"}
   Assocs = {"V", "C"}
-  Owns = {FALSE}
-  PGs = {0}
+  Owns = {TRUE, FALSE}
+  PGs = {0, 1}
   AllowCopy = FALSE
   Deviations = {}
 INVARIANT ArraysAligned
 INVARIANT VertexAtDepth
 INVARIANT CellsJoin
 INVARIANT ValuesAttached
+PROPERTY OriginalKept
 CHECK_DEADLOCK FALSE
